@@ -10,7 +10,7 @@ From TLV Require Import Base.Shape Base.PyList Base.Tensor Base.Ops Model.Base M
      Proofs.SvdDecompTuckerErr Proofs.SvdDecompTuckerBound Proofs.SvdDecompHosvdBound
      Proofs.SvdDecompPartial Proofs.SvdDecompTuckerGen Proofs.SvdDecompRingErr Proofs.SvdDecompTTMErr
      Proofs.SvdDecompValidate Proofs.SvdDecompRingPartial Proofs.SvdDecompRingErrR
-     Proofs.SvdDecompRankCond Model.SvdDecompSymeig Proofs.SvdDecompSymeig Proofs.SvdDecompSymeigRing Proofs.SvdDecompSymeigEig Model.SvdDecompRand Proofs.SvdDecompRand Proofs.SvdDecompEckartYoung Proofs.SvdDecompTTUpper Proofs.SvdDecompMethodsTucker Proofs.SvdDecompTTRank Proofs.SvdDecompTTMRank Proofs.SvdDecompTuckerRank Proofs.SvdDecompHooiBound.
+     Proofs.SvdDecompRankCond Model.SvdDecompSymeig Proofs.SvdDecompSymeig Proofs.SvdDecompSymeigRing Proofs.SvdDecompSymeigEig Model.SvdDecompRand Proofs.SvdDecompRand Proofs.SvdDecompEckartYoung Proofs.SvdDecompTTUpper Proofs.SvdDecompMethodsTucker Proofs.SvdDecompTTRank Proofs.SvdDecompTTMRank Proofs.SvdDecompTuckerRank Proofs.SvdDecompHooiBound Proofs.SvdDecompRingRank Proofs.SvdDecompTuckerSemi Proofs.SvdDecompTuckerSemiEx Proofs.SvdDecompSymeigWide.
 Import ListNotations.
 
 (* exactness of one TT-SVD step, over every commutative ring: truncating + sign-flipping a
@@ -157,13 +157,13 @@ Proof.
   cbv zeta. split; [reflexivity|]. split; [|split; vm_compute; reflexivity].
   cbn [factors_span]. split; [|split; [|exact I]].
   - exists 1, (fun _ ridx => if Nat.eqb (nth 0 ridx 0) 0 then 3%Z else 0%Z). split; [reflexivity|]. split.
-    + intros j l Hj Hl. assert (j = 0) by lia. assert (l = 0) by lia. subst. vm_compute. reflexivity.
+    + apply orthonormal_semi. intros j l Hj Hl. assert (j = 0) by lia. assert (l = 0) by lia. subst. vm_compute. reflexivity.
     + intros idx Hidx. destruct idx as [|i [|j [|? ?]]]; simpl in Hidx; try tauto.
       destruct Hidx as (Hi & Hj & _).
       assert (Ei : i = 0 \/ i = 1) by lia. assert (Ej : j = 0 \/ j = 1) by lia.
       destruct Ei as [-> | ->]; destruct Ej as [-> | ->]; vm_compute; reflexivity.
   - exists 1, (fun _ ridx => if Nat.eqb (nth 0 ridx 0) 0 then 3%Z else 0%Z). split; [reflexivity|]. split.
-    + intros j l Hj Hl. assert (j = 0) by lia. assert (l = 0) by lia. subst. vm_compute. reflexivity.
+    + apply orthonormal_semi. intros j l Hj Hl. assert (j = 0) by lia. assert (l = 0) by lia. subst. vm_compute. reflexivity.
     + intros idx Hidx. destruct idx as [|i [|j [|? ?]]]; simpl in Hidx; try tauto.
       destruct Hidx as (Hi & Hj & _).
       assert (Ei : i = 0 \/ i = 1) by lia. assert (Ej : j = 0 \/ j = 1) by lia.
@@ -1114,3 +1114,147 @@ Example C09_nonvacuous_ttm_rank_condition :
   0 < prod (shape (ttm_tensor ttmX)) /\ tt_sorted svd (ttm_tensor ttmX) (inr [1; 1; 1]) /\
   requested_rank_condition (ttm_tensor ttmX) [1; 1; 1].
 Proof. exact ttm_hypotheses_satisfiable. Qed.
+
+(* ============================================================ tensor_ring: rank condition => exactness, end to end ============ *)
+(* the sequential loop with a trailing bond r0, relative to ANY reference array Y (p x sizes... x r0) whose working array is P^T Y
+   for a frame P with orthonormal columns: LAPACK's plain contract with sorted singular values + "the reference, viewed as
+   (p n_1 ... n_k) x (n_{k+1} ... r0), has rank at most the bond realised at step k" => the per-run contract of every step
+   (Eckart-Young for the working unfolding + the frame invariant; induction over the modes) *)
+Theorem C09_loop_contract_from_rank_trailing_bond : forall (svd : nat -> tensor R -> svdans) (Yd : list R) (r0 : nat)
+  (sizes : list nat) (k : nat) (ranks : list nat) (rk : nat) (W : list R) (P : nat -> nat -> R) (p : nat),
+  0 < prod sizes * r0 ->
+  frame_inv Yd p (prod sizes * r0) rk P W ->
+  loop_pred Rops svd svd_sorted_contract k sizes ranks rk r0 W ->
+  y_factors_from Yd r0 p sizes (loop_rank_list svd k sizes ranks rk r0 W) ->
+  loop_contract svd k sizes ranks rk r0 W.
+Proof. exact loop_contract_from_rank_gen. Qed.
+Print Assumptions C09_loop_contract_from_rank_trailing_bond.
+
+(* FULL, every start mode: if the first unfolding of the (rotated) input has rank <= rank[0] * rank[1] and the remainder of the
+   first SVD, viewed as (r1 n_1 ... n_k) x (n_{k+1} ... n_{d-1} r0), has rank at most the bond realised at step k, tensor_ring
+   reproduces X -- only LAPACK's plain contract (sorted singular values) is assumed for the answers of the run *)
+Theorem C09_tensor_ring_exact_from_rank_condition : forall (svd : nat -> tensor R -> svdans) (X : tensor R) (rank : rank_spec)
+  (mode : nat) (cores : list (tensor R)),
+  tr_sorted svd X rank mode -> tr_rank_condition svd X rank mode ->
+  tensor_ring Rops svd X rank mode = Ok cores ->
+  forall idx, inb (shape X) idx -> tr_entry Rops cores idx = get 0%R X idx.
+Proof. exact tensor_ring_exact_from_rank_condition. Qed.
+Print Assumptions C09_tensor_ring_exact_from_rank_condition.
+
+(* the remainder W1 of the first SVD consists of the r0 column blocks of U^T X_(0): if X viewed as (s0 m) x c has rank <= rho,
+   W1 viewed as (r1 m) x (c r0) has rank <= rho r0 (hence <= any r >= rho r0) *)
+Theorem C09_ring_remainder_rank : forall (Xd Wd : list R) (u : nat -> nat -> R) (s0 r0 r1 m c rho r : nat),
+  0 < m -> 0 < c -> 0 < r0 ->
+  (forall b j a, b < r1 -> j < m * c -> a < r0 ->
+     nth ((b * (m * c) + j) * r0 + a) Wd 0%R = fsumn Rops s0 (fun i0 => (u i0 (a * r1 + b)%nat * nth (i0 * (m * c) + j)%nat Xd 0)%R)) ->
+  rho * r0 <= r ->
+  factors_through (mk [s0 * m; c] Xd) (s0 * m) c rho ->
+  factors_through (mk [r1 * m; c * r0] Wd) (r1 * m) (c * r0) r.
+Proof. exact ring_factors_step. Qed.
+Print Assumptions C09_ring_remainder_rank.
+
+(* FULL, every start mode, the condition on X ITSELF: the first unfolding of the (rotated) input has rank <= rank[0] * rank[1]
+   and its k-th sequential unfolding (s0 n_1 ... n_k) x (n_{k+1} ... n_{d-1}) has a rank rho_k with rho_k * rank[0] <= the bond
+   realised at step k (for rank[0] = 1 this is the TT-SVD condition) => tensor_ring reproduces X *)
+Theorem C09_tensor_ring_exact_from_x_rank_condition : forall (svd : nat -> tensor R -> svdans) (X : tensor R) (rank : rank_spec)
+  (mode : nat) (cores : list (tensor R)),
+  tr_sorted svd X rank mode -> tr_x_rank_condition svd X rank mode ->
+  tensor_ring Rops svd X rank mode = Ok cores ->
+  forall idx, inb (shape X) idx -> tr_entry Rops cores idx = get 0%R X idx.
+Proof. exact tensor_ring_exact_from_x_rank_condition. Qed.
+Print Assumptions C09_tensor_ring_exact_from_x_rank_condition.
+
+(* FULL, every start mode, the regime the check's generator calls "sufficient": the first unfolding has rank <= rank[0] * rank[1]
+   (always the case when rank[0] * rank[1] = min(s0, n_col)) and no request of the loop clips below min(n_row, n_col) of its step
+   (full_bonds, a condition on shapes and requests only) => tensor_ring reproduces X *)
+Theorem C09_tensor_ring_exact_full_request : forall (svd : nat -> tensor R -> svdans) (X : tensor R) (rank : rank_spec)
+  (mode : nat) (cores : list (tensor R)),
+  tr_sorted svd X rank mode -> tr_full_request X rank mode ->
+  tensor_ring Rops svd X rank mode = Ok cores ->
+  forall idx, inb (shape X) idx -> tr_entry Rops cores idx = get 0%R X idx.
+Proof. exact tensor_ring_exact_full_request. Qed.
+Print Assumptions C09_tensor_ring_exact_full_request.
+
+Example C09_nonvacuous_tr_rank_condition :
+  let svd := fun (_ : nat) (_ : tensor R) => rk1_a in
+  tr_sorted svd rk1_M (inr [1; 1; 1]) 0 /\ tr_x_rank_condition svd rk1_M (inr [1; 1; 1]) 0.
+Proof. exact tr_rank_condition_satisfiable. Qed.
+
+Example C09_nonvacuous_tr_full_request :
+  let svd := fun (_ : nat) (_ : tensor R) => rk1_a in
+  tr_sorted svd rk1_M (inr [1; 2; 1]) 0 /\ tr_full_request rk1_M (inr [1; 2; 1]) 0.
+Proof. exact tr_full_request_satisfiable. Qed.
+
+Example C09_nonvacuous_full_bonds : full_bonds [3; 2; 2] [6; 4; 2] 2 2.
+Proof. exact full_bonds_instance. Qed.
+
+(* ============================================================ Tucker with factors whose columns are orthonormal OR ZERO ============ *)
+(* factors_span / fitp (premises of C09_tucker_roundtrip, C09_tucker_exact_of_factors, C09_hooi_update_fits) now ask only for
+   semi_orthonormal_cols: every column of a factor is either zero or part of an orthonormal family.  One mode (any commutative
+   ring): projecting on such a U and expanding again returns X when the mode-k fibres of X are combinations of its columns *)
+Theorem C09_mode_projector_exact_semi : forall (F : Type) (Op : fops F),
+  ring_theory (f0 Op) (f1 Op) (fadd Op) (fmul Op) (fsub Op) (fopp Op) (@eq F) ->
+  forall (X U : tensor F) (k r : nat) (c : nat -> list nat -> F),
+  wf X -> k < ndim X -> shape U = [nth k (shape X) 0; r] ->
+  semi_orthonormal_cols Op U (nth k (shape X) 0) r -> mode_span Op X U k r c ->
+  exists Y, mode_dot Op X U k true = Ok Y /\ shape Y = set_nth k r (shape X) /\ mode_dot Op Y U k false = Ok X.
+Proof. exact @mode_projector_exact_semi. Qed.
+Print Assumptions C09_mode_projector_exact_semi.
+
+Theorem C09_orthonormal_is_semi : forall (F : Type) (Op : fops F) (U : tensor F) (m r : nat),
+  orthonormal_cols Op U m r -> semi_orthonormal_cols Op U m r.
+Proof. exact @orthonormal_semi. Qed.
+Print Assumptions C09_orthonormal_is_semi.
+
+(* non-vacuity in the NEW regime: a factor with a zero column (not orthonormal) round-trips X = diag(3, 0) *)
+Example C09_nonvacuous_tucker_zero_column :
+  wf semiX /\ factors_span Zops semiX [semiU; semiU] 0 /\ ~ orthonormal_cols Zops semiU 2 2 /\
+  multi_mode_dot Zops semiX [semiU; semiU] 0 None true = Ok (mk [2; 2] [3; 0; 0; 0]%Z) /\
+  tucker_to_tensor Zops (mk [2; 2] [3; 0; 0; 0]%Z) [semiU; semiU] = Ok semiX.
+Proof. exact semi_roundtrip_instance. Qed.
+
+(* the weakened U-side contract (zero columns allowed) is implied by the U-side contract, and a call meeting it yields a fitting factor *)
+Theorem C09_svd_contract_u_su : forall (M : tensor R) (m n r : nat) (a : svdans),
+  svd_contract_u M m n r a -> svd_contract_su M m n r a.
+Proof. exact svd_contract_u_su. Qed.
+Print Assumptions C09_svd_contract_u_su.
+
+(* tucker(init="svd", tol=0), ANY number of sweeps, any rank request: the calls of the initialisation under the weakened contract,
+   the calls of the sweeps (LAPACK's truncated SVD in the code) under the U-side contract => exact reconstruction *)
+Theorem C09_tucker_exact_semi_R : forall (svd : nat -> tensor R -> svdans) (X : tensor R) (rank : rank_spec) (n_iter : nat)
+  (core : tensor R) (fs : list (tensor R)),
+  wf X -> 0 < prod (shape X) ->
+  hosvd_contract_su svd X (validate_tucker_rank (ndim X) rank) 0 0 ->
+  match hosvd_factors Rops svd X (validate_tucker_rank (ndim X) rank) 0 0 with
+  | Ok fs0 => hooi_iter_contract_u svd X (validate_tucker_rank (ndim X) rank) n_iter (ndim X) fs0
+  | Err => True
+  end ->
+  tucker Rops svd X rank n_iter = Ok (core, fs) ->
+  tucker_to_tensor Rops core fs = Ok X.
+Proof. exact tucker_exact_semi_R. Qed.
+Print Assumptions C09_tucker_exact_semi_R.
+
+(* svd="symeig_svd" on a WIDE unfolding (dim_1 <= dim_2: U = (M V) / S): under eigh's literal contract (W orthogonal,
+   (M^T M) W = W diag(lambda)), s^2 = clip(lambda, eps) with every eigenvalue 0 or >= eps, discarded eigenvectors null vectors of M,
+   the answer meets the weakened contract: columns of non-zero eigenvalues orthonormal, columns of zero eigenvalues exactly zero *)
+Theorem C09_symeig_wide_contract_su : forall (eps : R) (M : tensor R) (m n r : nat) (a : svdans),
+  (0 < eps)%R -> symeig_wide_ok eps M m n r a -> svd_contract_su M m n r a.
+Proof. exact symeig_wide_ok_contract_su. Qed.
+Print Assumptions C09_symeig_wide_contract_su.
+
+(* tucker with ANY svd= method on EVERY shape of the mode unfoldings (closes the gap of C09_tucker_methods_exact_R) *)
+Theorem C09_tucker_all_methods_exact_R : forall (svd : nat -> tensor R -> svdans) (eps : R), (0 < eps)%R ->
+  forall (X : tensor R) (rank : rank_spec) (n_iter : nat) (core : tensor R) (fs : list (tensor R)),
+  wf X -> 0 < prod (shape X) ->
+  hosvd_call_pred svd (method_su_ok eps) X (validate_tucker_rank (ndim X) rank) 0 0 ->
+  match hosvd_factors Rops svd X (validate_tucker_rank (ndim X) rank) 0 0 with
+  | Ok fs0 => hooi_iter_contract_u svd X (validate_tucker_rank (ndim X) rank) n_iter (ndim X) fs0
+  | Err => True
+  end ->
+  tucker Rops svd X rank n_iter = Ok (core, fs) ->
+  tucker_to_tensor Rops core fs = Ok X.
+Proof. exact tucker_all_methods_exact_R. Qed.
+Print Assumptions C09_tucker_all_methods_exact_R.
+
+Example C09_nonvacuous_symeig_wide : symeig_wide_ok (/ 4)%R wM 2 2 2 (symeig_ans Rops wM wW [(/ 2)%R; 1%R]).
+Proof. exact symeig_wide_satisfiable. Qed.
